@@ -17,7 +17,7 @@ pub fn spec(tier: Tier) -> RunSpec {
         8,
         "section histories (real rws binary, N in {1,2,4,8} workers): sequences of 1..300 connections drawn from valid GET/HEAD/POST requests, every known fault-provoking request class (target without slash, junk Content-Length, \
 ':abc/' authority, suffix range larger than the file, binary form bodies, thousands of header lines, query-first target), generated G-REQ mutants, connect-and-close, connect-and-RST (SO_LINGER 0), half a request then close / RST, \
-a full request then RST without reading, stall then close, idle connections held across later operations, quiet periods without any client activity (up to 40 ms inside generated histories; section quiet-periods: 6.5 s quick, up to 61 s thorough), and queued variants performed while the server is SIGSTOPped (the acceptor finds dead connections in its backlog). \
+a full request then RST without reading, stall then close, idle connections held across later operations, floods of 100-200 simultaneous silent connections against a server limited to 40-80 file descriptors (section descriptor-exhaustion: accept fails for a while, which must pass), quiet periods without any client activity (up to 40 ms inside generated histories; section quiet-periods: 6.5 s quick, up to 61 s thorough), and queued variants performed while the server is SIGSTOPped (the acceptor finds dead connections in its backlog). \
 Invariant after the history: the process is running, all worker threads 0..N-1 exist in /proc/<pid>/task, a valid probe is answered 200 with the right body, and with N-1 idle connections pinning N-1 workers a request on an N-th connection is answered. \
 section transport-faults (in-process): Server::process on a mock transport with read error, write error at byte k, Ok(0), flush error must return (Ok or Err) without panicking. \
 section pool-under-failing-jobs (shuttle engine /verif/sched; evaluations there are schedules): pool sizes 1..8 with task lists that contain panicking jobs, followed by full-width rendezvous groups - a panicking or blocking job must never remove a worker. \
@@ -52,10 +52,14 @@ pub enum Op {
     QueuedRequests(u8),
     /// no client activity for that many milliseconds
     Quiet(u16),
+    /// ten times that many connections are opened at once and say nothing for 30 ms, then all of them end (every other one by reset)
+    Flood(u8),
 }
 
 #[derive(Clone, Debug, Serialize, Deserialize)]
-pub struct History { pub workers: u8, pub ops: Vec<Op> }
+pub struct History { pub workers: u8, pub ops: Vec<Op>,
+    /// the server runs with this limit on open file descriptors (a flood can then use them up: accept fails for a while, which must pass)
+    #[serde(default)] pub nofile: Option<u16> }
 
 pub fn valid_request(k: u8) -> Vec<u8> {
     match k % 6 {
@@ -107,7 +111,7 @@ fn op_strategy() -> impl Strategy<Value = Op> {
 
 fn history_strategy(max_ops: usize) -> impl Strategy<Value = History> {
     (prop::sample::select(vec![1u8, 2, 4, 8]), prop_oneof![3 => proptest::collection::vec(op_strategy(), 1..40), 2 => proptest::collection::vec(op_strategy(), 40..max_ops)])
-        .prop_map(|(workers, ops)| History { workers, ops })
+        .prop_map(|(workers, ops)| History { workers, ops, nofile: None })
 }
 
 const LIMIT: Duration = Duration::from_secs(3);
@@ -131,7 +135,9 @@ fn request_releasing(srv: &Server, req: &[u8], others: &mut Vec<std::net::TcpStr
 
 pub fn run_history(ctx: &Ctx, docroot: &std::path::Path, h: &History) -> Verdict {
     let n = h.workers.max(1) as u32;
-    let mut srv = match Server::start(&ServerOpts::new(docroot, n)) { Ok(s) => s, Err(e) => { ctx.inconclusive(&format!("server start: {}", e)); return Verdict::Discard; } };
+    let mut opts = ServerOpts::new(docroot, n);
+    opts.nofile = h.nofile.map(|v| v as u64);
+    let mut srv = match Server::start(&opts) { Ok(s) => s, Err(e) => { ctx.inconclusive(&format!("server start: {}", e)); return Verdict::Discard; } };
     let mut held: Vec<std::net::TcpStream> = vec![];
     let mut problems: Vec<(String, String)> = vec![];
     let mut stalled: Option<String> = None;
@@ -174,6 +180,14 @@ pub fn run_history(ctx: &Ctx, docroot: &std::path::Path, h: &History) -> Verdict
             Op::FullThenReset(k) => { if let Ok(mut s) = srv.connect() { let _ = s.write_all(&valid_request(*k)); net::reset(s); } }
             Op::StallThenClose(ms) => { if let Ok(s) = srv.connect() { std::thread::sleep(Duration::from_millis(*ms as u64)); drop(s); } }
             Op::Quiet(ms) => { std::thread::sleep(Duration::from_millis(*ms as u64)); }
+            Op::Flood(k) => {
+                let mut flood = vec![];
+                for _ in 0..(*k as usize * 10) { if let Ok(s) = std::net::TcpStream::connect_timeout(&srv.addr, Duration::from_millis(200)) { flood.push(s); } }
+                std::thread::sleep(Duration::from_millis(30));
+                for (j, s) in flood.into_iter().enumerate() { if j % 2 == 0 { net::reset(s); } else { drop(s); } }
+                // what was accepted is answered into closed sockets now; give the backlog a moment to drain
+                std::thread::sleep(Duration::from_millis(40));
+            }
             Op::IdleHold(k) => { for _ in 0..*k { if held.len() < 16 { if let Ok(s) = srv.connect() { held.push(s); } } } }
             Op::QueuedClose(k) | Op::QueuedReset(k) | Op::QueuedRequests(k) => {
                 if matches!(op, Op::QueuedRequests(_)) && held.len() as u32 >= n { held.clear(); }
@@ -273,7 +287,7 @@ pub fn run(ctx: &Ctx) {
     let long: Option<u16> = if ctx.tier == Tier::Thorough { [6500u16, 16_000, 31_000, 61_000].get(ctx.worker as usize).copied() } else if ctx.worker == 0 { Some(6500) } else { None };
     if let Some(ms) = long {
         for workers in if ctx.tier == Tier::Thorough { vec![4u8, 2] } else { vec![4u8] } {
-            let h = History { workers, ops: vec![Op::Valid(0), Op::Valid(3), Op::Quiet(ms), Op::Valid(1)] };
+            let h = History { workers, ops: vec![Op::Valid(0), Op::Valid(3), Op::Quiet(ms), Op::Valid(1)], nofile: None };
             ctx.inflight_ser(&h);
             let v = run_history(ctx, &root, &h);
             let hh = h.clone();
@@ -281,6 +295,10 @@ pub fn run(ctx: &Ctx) {
         }
         ctx.clear_inflight();
     }
+    // floods: more simultaneous connections than the server has file descriptors for (limit 40..80, 100..200 connections), between valid requests
+    let floods = (prop::sample::select(vec![1u8, 2, 4]), 40u16..80, proptest::collection::vec(prop_oneof![2 => any::<u8>().prop_map(Op::Valid), 2 => (10u8..20).prop_map(Op::Flood), 1 => any::<u8>().prop_map(Op::Faulty), 1 => Just(Op::ConnectReset)], 2..8))
+        .prop_map(|(workers, nofile, mut ops)| { if !ops.iter().any(|o| matches!(o, Op::Flood(_))) { ops.push(Op::Flood(15)); } History { workers, ops, nofile: Some(nofile) } });
+    ctx.prop("descriptor-exhaustion", ctx.share(ctx.scale(24, 800)), floods, |h| run_history(ctx, &root, h));
     let fs = (any::<u8>(), any::<bool>(), prop_oneof![3 => (0usize..800).prop_map(WriteScript::ErrAfter), 1 => Just(WriteScript::Zero), 1 => Just(WriteScript::Unlimited), 1 => (1usize..50).prop_map(WriteScript::Chunk)], proptest::bool::weighted(0.3), proptest::bool::weighted(0.2))
         .prop_map(|(request, faulty, script, flush_err, read_err)| FaultCase { request, faulty, script, flush_err, read_err });
     ctx.prop("transport-faults", ctx.share(ctx.scale(8_000, 400_000)), fs, |c| eval_fault(ctx, c));
